@@ -114,6 +114,53 @@ class Nest(_Bodies):
         return body
 
 
+class Default(_Bodies):
+    """`x = A` (A call-free) followed - other such defaults in between - by `if c: ...; x = B; ...` without else, where c does not
+    read x and the branch assigns x at its top level before mentioning it otherwise: the default moves into an else branch
+    (`if c: ... else: x = A`), which is how the two-armed form is written"""
+
+    @staticmethod
+    def _callfree(e):
+        return not any(isinstance(y, (ast.Call, ast.Await, ast.Yield, ast.YieldFrom, ast.NamedExpr, ast.Lambda, ast.ListComp, ast.SetComp,
+                                      ast.DictComp, ast.GeneratorExp)) for y in ast.walk(e))
+
+    @staticmethod
+    def _mentions(node, name):
+        return any(isinstance(y, ast.Name) and y.id == name for y in ast.walk(node))
+
+    def process(self, body):
+        body = list(body)
+        i = 0
+        while i < len(body):
+            st = body[i]
+            if isinstance(st, ast.If) and not st.orelse:
+                moved = []
+                j = i - 1
+                while j >= 0:
+                    d = body[j]
+                    if not (isinstance(d, ast.Assign) and len(d.targets) == 1 and isinstance(d.targets[0], ast.Name) and self._callfree(d.value)):
+                        break
+                    x = d.targets[0].id
+                    # overwritten at the top level of the branch before any other mention there; not read by the test, nor by
+                    # the defaults already taken (they stand after it)
+                    first = next((k for k, s in enumerate(st.body) if self._mentions(s, x)), None)
+                    ok = first is not None and isinstance(st.body[first], ast.Assign) and len(st.body[first].targets) == 1 \
+                        and isinstance(st.body[first].targets[0], ast.Name) and st.body[first].targets[0].id == x \
+                        and not self._mentions(st.body[first].value, x) and not self._mentions(st.test, x) \
+                        and not any(self._mentions(m, x) for m in moved) \
+                        and not any(self._mentions(d.value, m.targets[0].id) for m in moved)
+                    if not ok:
+                        break
+                    moved.insert(0, d)
+                    j -= 1
+                if moved:
+                    st.orelse = moved
+                    del body[j + 1:i]
+                    i = j + 1
+            i += 1
+        return body
+
+
 _POSITIVE = {ast.NotIn: ast.In, ast.IsNot: ast.Is, ast.NotEq: ast.Eq}
 
 
@@ -440,7 +487,7 @@ def _fold_pass():
     return Fold()
 
 
-PASSES = (Untuple, FirstMatch, Expand, Nest, Orient, Merge, Compare, Comprehend, Alias, _fold_pass)
+PASSES = (Untuple, FirstMatch, Expand, Nest, Default, Orient, Merge, Compare, Comprehend, Alias, _fold_pass)
 
 
 def normalise(tree, passes=PASSES):
